@@ -98,6 +98,7 @@ func (l *FileSystemLoader) Load(name string) (string, error) {
 
 		// Check if file exists
 		if _, err := os.Stat(filePath); err == nil {
+			verifYield("fsloader.betweenStatAndMemo")
 			// Save the path for future lookups
 			l.rememberPath(name, filePath)
 
